@@ -27,12 +27,23 @@ func ZZ_ListCommands() []string {
 	return names
 }
 
+var zzShell2 *Shell
+
+// ZZSetup_TwoShells builds two independent shells (for differential harnesses).
+func ZZSetup_TwoShells() {
+	zzShell = NewShell()
+	zzShell2 = NewShell()
+}
+
 // zzSession prepares the shell for one Readline call fed by script.
 func zzSession(script *zzverif.Script) *Shell {
 	if !zzverif.Symbolic() || zzShell == nil {
 		ZZSetup_Shell()
 	}
-	rl := zzShell
+	return zzSessionOn(zzShell, script)
+}
+
+func zzSessionOn(rl *Shell, script *zzverif.Script) *Shell {
 	core.Stdin = script
 	// the terminal answers every cursor position query with row 1, column 1
 	zzverif.StdinHook = func(buf []byte) (int, error) {
